@@ -25,7 +25,7 @@ func Harness_lint() {
 			src += "  a: 1\n"
 			lineNo++
 		case 1: // bad syntax, symbolic bytes
-			k := 1 + verifChoose("k", 2)
+			k := 1 + verifChoose("k", 3) // three bytes: the inner one is any printable character ('%', quotes, ...)
 			body := verifBytes("body", k)
 			for j := 0; j < k; j++ {
 				c := body[j]
